@@ -238,6 +238,11 @@ def copyV : Nat → Value → EM Value
             pure (.err (← liftM (alloc (.err c))))
         | _ => eUnsup "bad error ref"
     | .fn _ => eUnsup "copy of a function"
+    | .cfn r => do
+        -- CompiledFunction.Copy: a new function object sharing the captured cells
+        match ← liftM (getObj r) with
+        | .cfn k free => pure (.cfn (← liftM (alloc (.cfn k free))))
+        | _ => eUnsup "bad function ref"
     | .builtin _ => eUnsup "copy of a builtin"     -- Go returns a fresh BuiltinFunction; identity is not observable
     | v => pure v
 
@@ -264,8 +269,8 @@ def isPred (name : String) (v : Value) : Option Bool :=
   | "is_time" => some false
   | "is_error" => some (match v with | .err _ => true | _ => false)
   | "is_undefined" => some (match v with | .undef => true | _ => false)
-  | "is_function" => some (match v with | .fn _ => true | _ => false)
-  | "is_callable" => some (match v with | .fn _ | .builtin _ => true | _ => false)
+  | "is_function" => some (match v with | .fn _ | .cfn _ => true | _ => false)
+  | "is_callable" => some (match v with | .fn _ | .cfn _ | .builtin _ => true | _ => false)
   | "is_iterable" => some (match v with
       | .arr _ | .imarr _ | .map _ | .immap _ | .str _ | .bytes _ | .undef => true | _ => false)
   | _ => none
